@@ -1,0 +1,14 @@
+//go:build verif
+// +build verif
+
+package expiration
+
+// VerifNewSkipList exposes the alternative List implementation to the simulator.
+func VerifNewSkipList() List {
+	return newSkipList()
+}
+
+// VerifNewPQList exposes the default List implementation under its own name.
+func VerifNewPQList() List {
+	return newPQList()
+}
